@@ -45,6 +45,7 @@ type Gen struct {
 	Populated bool // C13: fully populated values only
 	NoExtra   bool // no destination fields outside the schema
 	FmtModes  bool // vary the formatter level (execution formatter, i18n language)
+	Share     bool // place one schema object at several positions
 }
 
 func (g *Gen) id() int { g.nextID++; return g.nextID }
@@ -368,6 +369,11 @@ func (g *Gen) NodeOf(kind string, depth int) *Node {
 			}
 			n.Fields = append(n.Fields, f)
 		}
+		if g.Share && len(n.Fields) >= 2 && r.P(60, 100) {
+			// one schema object used for two fields
+			i, j := 0, 1+r.Intn(len(n.Fields)-1)
+			n.Fields[j].S = n.Fields[i].S
+		}
 		if !g.NoExtra && r.P(30, 100) {
 			n.Extra = []string{"Zextra"}
 		}
@@ -582,3 +588,12 @@ func (g *Gen) Case(id int) *Case {
 	}
 	return c
 }
+
+
+// exported generator pieces (builder stream)
+func (g *Gen) PrimTests(pk string) []TestSpec { return g.primTests(pk) }
+func (g *Gen) Topts() TOpts                   { return g.topts() }
+func (g *Gen) ID() int                        { return g.id() }
+func (g *Gen) PrimD(pk string, z bool) D      { return g.primD(pk, z) }
+func (g *Gen) Posts(n *Node) []PostSpec       { return g.posts(n) }
+func (g *Gen) FnTest() TestSpec               { return g.fnTest() }
